@@ -16,7 +16,7 @@ import (
 	"waspcheck/internal/rules"
 )
 
-// selfTest re-applies the seeded changes that target property id (or that its check is known to catch) to a throw-away
+// selfTest re-applies the seeded changes that target property id to a throw-away
 // copy of the analysed tree and records which rules fire. Informational: it never changes the exit status.
 func selfTest(id, repo, verif, tier string) []map[string]interface{} {
 	var out []map[string]interface{}
@@ -32,7 +32,7 @@ func selfTest(id, repo, verif, tier string) []map[string]interface{} {
 		if err != nil || json.Unmarshal(b, &m) != nil {
 			continue
 		}
-		if _, listed := m.Detected[id]; m.Breaks != id && !listed {
+		if m.Breaks != id {
 			continue
 		}
 		sid := filepath.Base(filepath.Dir(mp))
@@ -61,6 +61,7 @@ func selfTest(id, repo, verif, tier string) []map[string]interface{} {
 				return
 			}
 			r := report.New(id, tier)
+			defer rules.Forget(p)
 			func() {
 				defer func() {
 					if e := recover(); e != nil {
